@@ -131,9 +131,9 @@ def cluster_default():
         by = collections.defaultdict(list)
         for k in range(1, 120000):
             by[wang(0, k) % 32768].append(k)
-        base = max(by, key=lambda s: sum(len(by[(s + d) % 32768]) for d in range(3)))
+        base = max(list(by), key=lambda s: sum(len(by.get((s + d) % 32768, ())) for d in range(3)))
         for d in range(3):
-            _cluster_default.extend(by[(base + d) % 32768])
+            _cluster_default.extend(by.get((base + d) % 32768, ()))
     return _cluster_default
 
 
@@ -155,6 +155,7 @@ def oracle(line, out, hs, high, low):
     sure = collections.Counter()           # key -> lower bound on the number of live entries
     upper = collections.Counter()          # key -> upper bound
     freeze = 0
+    n_acc = 0                              # accepted insertions so far
     for i, (t, r) in enumerate(zip(toks, res)):
         op = t[0]
         key = t[2:] if len(t) > 1 else None
@@ -162,11 +163,15 @@ def oracle(line, out, hs, high, low):
             freeze += 1
         elif op == "T":
             freeze -= 1
-            if freeze == 0 and sum(upper.values()) > low:
+            # the code evicts when n_glyphs + n_tombstones > HIGH (tombstones count: with more than HIGH
+            # of them the whole table is dumped, however few glyphs are live); live + tombstones never
+            # exceeds the number of accepted insertions, so below that nothing may disappear
+            if freeze == 0 and n_acc > high:
                 sure.clear()           # anything may have been evicted
         elif op == "I":
             if r.startswith("I"):
                 cand[key].add(int(r[1:]))
+                n_acc += 1
                 sure[key] += 1
                 upper[key] += 1
             elif r == "N" and freeze > 0:
@@ -347,7 +352,11 @@ def run_draw(ctx, b):
         for l, o in zip(lines, outs):
             total += 1
             if o.startswith("ok"):
-                if cname == "default":
+                if cname == "default" and l.startswith("acc "):
+                    t = l.split()
+                    nontriv.add(l)
+                    hist[f"acc:{t[1]}:{t[2]}-glyphs"] += 1
+                elif cname == "default":
                     t = l.split()
                     if o.split()[2] != "0":
                         nontriv.add(l)
@@ -357,7 +366,10 @@ def run_draw(ctx, b):
                         if t[0] == "draw" and t[1] == "M":
                             mfh[parse_draw(l)["mfmt"]] += 1
                 continue
-            if l.startswith("spot "):
+            if l.startswith("acc "):
+                t = l.split()
+                sig = f"acc|composite_glyphs|mask {t[1]}|{t[2]} glyphs|{o.split()[0]}"
+            elif l.startswith("spot "):
                 t = l.split()
                 sig = f"spot|{'composite_glyphs_no_mask' if t[1] == 'N' else 'composite_glyphs|mask ' + t[3]}|{OP_NAMES[int(t[2])]}"
             else:
@@ -381,7 +393,8 @@ def run_draw(ctx, b):
                        "how_to_replay": "build harness/glyphdraw.c against libpixman; glyphdraw exec ops.txt out.txt "
                                         "(one request per line; format in the header of harness/glyphdraw.c)"},
                       signature=sig,
-                      what=("glyph drawing differs from the absolute expectation (colour glyph through a white source): " if l.startswith("spot ")
+                      what=("accumulated glyph mask differs from the saturating sum min(2^bits-1, sum) / per-byte min(255, sum): " if l.startswith("acc ")
+                            else "glyph drawing differs from the absolute expectation (colour glyph through a white source): " if l.startswith("spot ")
                             else "glyph drawing differs from the reference composition (per-glyph composite / ADD-accumulated mask): ") + o2,
                       tag="draw")
     ctx.extra["glyph_drawing_mask_formats"] = dict(mfh)
@@ -413,7 +426,7 @@ def run(ctx):
         # exhaustive small scope: every history of length <= L after an initial freeze
         if hs <= 8:
             symx = [s for s in sym if not s.startswith("U")]
-            L = (5 if hs == 4 else 4) if quick else (7 if hs == 4 else 5)
+            L = (5 if hs == 4 else 4) if quick else (6 if hs == 4 else 5)   # 14 resp. 18 symbols with X: 14^6 + 18^5 histories
             for n in range(1, L + 1):
                 for h in itertools.product(symx, repeat=n):
                     lines.append(f"hist {hs} {high} {low} F " + " ".join(h))
@@ -523,6 +536,8 @@ def run(ctx):
                        "glyph drawing: random requests (glyph formats a1/a4/a8/a8r8g8b8 component-alpha plus 8% unusual ones, "
                        "33 mask formats for pixman_composite_glyphs (alpha+colour = component-alpha mask, alpha-only, alpha-less), "
                        "2010 absolute spot checks (single-channel colour glyph through a white source must give that pure colour), "
+                       "1324 accumulation checks (2-3 one-pixel glyphs of format a1/a4/a8/a8r8g8b8 drawn at one place through pixman_composite_glyphs "
+                       "with the same mask format: the pixel must be min(2^bits-1, sum), per byte for component alpha, both glyph orders; a4 and a1 exhaustive in pairs), "
                        "sizes 1..12, origins -6..14, "
                        "positions inside/straddling/outside, clip regions of 0..4 rectangles, operators 0..13, solid and bits sources "
                        "with every repeat mode, 10 destination formats) through pixman_composite_glyphs_no_mask and "
